@@ -18,6 +18,7 @@ import (
 	"sync"
 
 	"github.com/postalsys/muti-metroo/internal/crypto"
+	"github.com/postalsys/muti-metroo/verifharness/cryptomesh"
 	"github.com/postalsys/muti-metroo/verifharness/vh"
 )
 
@@ -583,6 +584,10 @@ func concurrentDeliveries(c *vh.Ctx) {
 func main() {
 	c := vh.Start("C01")
 	defer c.Finish()
+	if cryptomesh.IsChild() {
+		icmpAckReplay(c)
+		return
+	}
 	c.Res.Rule = "case = one adversarial schedule (encrypts on both ends + deliveries of genuine/reordered/duplicated/reflected/bit-flipped/re-numbered/truncated/forged frames, start counters anywhere) run on a real crypto.SessionKey pair; " +
 		"per event the outcome class, accepted frame and (send,recv) counters are compared with the model; non-trivial = at least one accept and one reject; distinct = distinct symbolic schedules"
 
@@ -651,7 +656,7 @@ func main() {
 	if c.Replay == "" {
 		concurrentDeliveries(c)
 		closedEndpoints(c)
-		icmpAckReplay(c)
+		cryptomesh.Run(c, func() { icmpAckReplay(c) })
 		replayedOpens(c, vh.NewRand(int64(uint64(c.Seed)*0x9E3779B97F4A7C15+77)))
 	}
 
